@@ -386,8 +386,12 @@ def ops (op : String) (j : Json) : Option (Except String Json) :=
       let anis := optFloats j "anis"
       let pos ← getFloats j "pos"       -- row-major (npts, dim)
       let npts := pos.size / dim
+      -- `spatialLag = norm2 (applyMat (matrixIsometrize …) x)` with the matrix tabulated once
+      let M := Geo.matrixIsometrize dim angles anis
+      let arr : Array Float := Array.ofFn (n := dim * dim) fun k => M (k.val / dim) (k.val % dim)
+      let Mt : Nat → Nat → Float := fun i j => arr[i * dim + j]!
       let out := (List.range npts).map fun i =>
-        let l := spatialLag dim angles anis (fun k => pos[i * dim + k]!)
+        let l := Geo.norm2 dim (Geo.applyMat dim Mt (fun k => pos[i * dim + k]!))
         [l, F.variogram l, F.covariance l, F.correlation l]
       return fl2 out)
   /- integral scale of the closed-form kernels, closed forms of calc_integral_scale, setter -/
